@@ -29,6 +29,10 @@ def sections(repo: Repo) -> Dict[str, Section]:
     chunk = repo.cls("Chunk", module="rv.modules.module")
     synth = repo.cls("Synth", module="rv.synth")
     prows = codec.writer_rows(repo, proj, repo.own_method(proj, "chunks"))
+    # a slot terminator written through a named constant (`yield _MODULE_END`) is the chunk it names
+    for r in prows:
+        if r.kind == "magic" and r.cid in ("PEND", "SEND") and r.loops:
+            r.kind = "chunk"
     top = [r for r in prows if not r.loops]
     mod_tail = [r for r in prows if any("self.modules" in l for l in r.loops)]
     pat_tail = [r for r in prows if any("self.patterns" in l for l in r.loops)]
